@@ -1,3 +1,4 @@
+extern crate alloc;
 use vstd::prelude::*;
 use core::num::NonZeroU32;
 use core::ops::Range;
